@@ -26,7 +26,7 @@ RULE = (
     "distinct = SHA-1 of canonical JSON"
 )
 ASSUMPTIONS = c03_uuid.ASSUMPTIONS + [
-    "re-inserting a module into the very list that already holds it has no unambiguous position; only uniqueness and membership are demanded there",
+    "re-inserting a module into the very list that already holds it gives the built-in result minus its old occurrence; only the same module twice inside one argument is judged by uniqueness and membership alone",
 ]
 REQUIRED_TAGS = {
     "quick": ["collection-side-move", "op:load", "op:new", "op:list.insert", "op:set.update", "iso:checked"],
